@@ -3,18 +3,22 @@ from plans import step
 PLAN = dict(
     coq_targets=["Props/C19.vo"],
     steps=[
-        # all 22 families x k = 1..16 (growth test on the generic measure), stage outputs of k <= 8 and of
+        # all 62 families x k = 1..16 (growth test on the generic measure), stage outputs of k <= 8 and of
         # n random programs re-measured with the Coq size functions (tie + proved bounds + ratio bounds)
         step("families-and-random", "sizes", "sizes", 40, 1200, shards_thorough=4),
         # the proved bounds evaluated up to k = 16 on the three fastest-growing families
         step("families-deep", "sizes", "sizes", 0, 0, shards_thorough=1,
              args=["tie=16", "family=crit_data_call3", "family=mixed", "family=seq_if_live", "family=let_match3_live", "family=crit_data_label3"]),
     ],
-    rule="REAL pipeline (parse, check, fun2core, focus, shrink, linearize, x86-64 / AArch64 / RISC-V code generators) on 22 scalable program "
+    rule="REAL pipeline (parse, check, fun2core, focus, shrink, linearize, x86-64 / AArch64 / RISC-V code generators) on 62 scalable program "
          "families (harness/src/gen_families.rs: sequenced / nested conditionals, sequenced / nested matches on 2-, 3-, 5-constructor types, "
          "case-of-case, chains of lets over matches, critical pairs at data types (call with a mu~ continuation, label/goto) and at a codata type "
-         "(label/goto returning `new`), destructor chains, mixed; source size linear in k, k = 1..16; variants with all k results alive and with O(1) "
-         "live variables) and on n random gen_fun programs of growing node budget.  Sizes are measured on the real outputs with a generic measure "
+         "(label/goto returning `new`), destructor chains, mixed; 40 NEAR-LEAF families: for every leaf test of fun2core (continuation is a covariable / "
+         "mu~x.exit of a variable or literal / at most one clause) and of core2axcut (at most one xtor / expanded side is exit, a call, an invoke) the "
+         "nearest non-leaf shape - exit / return / call of a compound term, destructor or case as continuation, switch, cocase, cut of a (co)variable, "
+         "literal, operator, xtor against a binder or a case, create, conditional, print, binding of a compound argument - nested k deep, for `if` and "
+         "two-clause `case`, at data and codata types, with two- and three-xtor types; source size linear in k, k = 1..16; variants with all k results "
+         "alive and with O(1) live variables) and on n random gen_fun programs of growing node budget.  Sizes are measured on the real outputs with a generic measure "
          "G = atoms + lists of sexp::dbg(value), code = number of instructions.  Per family and stage: s(16) <= 6*s(8), s(12) <= 6*s(6) "
          "(VIOL class=exponential-growth:<stage>) and s(16)-s(8) <= 6*(s(8)-s(4)) (class=superquadratic-growth:<stage>); tags <stage>:deg<d>, "
          "<stage>:ddeg<d> = fitted exponents in tenths (of the values / of the differences).  Per program (families k <= 8, resp. 16 in the second step; "
